@@ -63,6 +63,22 @@ class SimAtexit:
         return None
 
 
+def _mk_fsync(real):
+    def fsync(fd):
+        k = K.CURRENT
+        if k is not None and isinstance(fd, int) and fd >= K.SIM_FD_BASE:
+            f = k.fdtab.get(fd - K.SIM_FD_BASE)
+            if f is None:
+                if k.finished or k.cur_pid in k.dead:
+                    raise K.SimCrash()
+                raise OSError(9, "Bad file descriptor")
+            return k.sys_fsync(f)
+        if hasattr(fd, "fileno") and not isinstance(fd, int):
+            return fsync(fd.fileno())
+        return real(fd)
+    return fsync
+
+
 _PATCHES = None
 LOCK_ROOT = "/dev/shm/molli-verif-simlocks/shared"   # exists as an EMPTY real directory (fasteners makedirs it); no file is ever created in it
 
@@ -86,7 +102,11 @@ def _build_patches():
         def __init__(self, path, sleep_func=None, logger=None):
             super().__init__(path, sleep_func=_sim_sleep, logger=logger)
 
+    import os as _os
+
     return [
+        (_os, "fsync", _mk_fsync(_os.fsync)),
+        (_os, "fdatasync", _mk_fsync(_os.fdatasync)),
         (molli.storage.ukvfile, "Path", K.SimPath),
         (molli.storage.backends, "Path", K.SimPath),
         (molli.storage.collection, "Path", K.SimPath),
